@@ -239,6 +239,9 @@ func checkC12(c *Ctx) {
 	c.checkPublishedNotRecycled("O7 published-not-recycled")
 	c.checkBucketOwnTemplate("O4b bucket-own-template")
 	c.checkPooledSlicesDisjoint("O7 pooled-slices-disjoint")
+	// what is charged for a metric is the size computed for it at allocation: the queue element carries the
+	// handle's size unchanged (no value-dependent discount on the way) - shared with C13 O1
+	c.shared(checkC13, map[string]string{"O1 enqueue-once": "O2 charged-as-sized"})
 	c.checkOwnResourcePool("O8 own-resource-pool")
 }
 
